@@ -625,3 +625,21 @@ fn matches() {
 
     assert_eq!(reconstructed, original_data);
 }
+
+/// Constructor for the verification harness (the real one is crate-private); no logic.
+#[cfg(feature = "verif_hooks")]
+impl MatchGeneratorDriver {
+    pub fn verif_new(slice_size: usize, max_slices_in_window: usize) -> Self {
+        Self::new(slice_size, max_slices_in_window)
+    }
+    /// (window_size, max_window_size, number of window entries, vec pool size, suffix pool size)
+    pub fn verif_stats(&self) -> (usize, usize, usize, usize, usize) {
+        (
+            self.match_generator.window_size,
+            self.match_generator.max_window_size,
+            self.match_generator.window.len(),
+            self.vec_pool.len(),
+            self.suffix_pool.len(),
+        )
+    }
+}
